@@ -186,6 +186,19 @@ def _mirsym():
             [f"syntax::parser::{w} (from the str::parse::<u64> call to return)"], bounds="str::parse::<u64> modelled by its contract: Ok(any u64) or Err; API replay with a 20-digit literal",
             spec=sl.ParseNumberSpec(w), stubs=["str::parse::<u64> -> Ok(symbolic) | Err"])
 
+    from .specs import wal as sw
+    add("C08.a/wal_cursor", "C08", "mirsym", Q,
+        "WAL cursor state machine on the real MetaStore methods, from an arbitrary state with earliest <= next: ids are handed out in order, a flush persists the end of the range it captured, after a clean restart exactly the segments written after that capture are replayed, none is deleted, and ids are never reused",
+        ["disk_store::meta_store::MetaStore::{add_wal_segment,unflushed_wal_ids,advance_earliest_unflushed_wal_id,earliest_uncommited_wal_id,register_wal_segment}"],
+        bounds="0..2 (quick) / 0..3 (thorough) ingests before the flush, during it and after the restart; next < 2^63; recovery rule of Storage::recover (id < cursor -> delete, else register+replay) applied in the obligation",
+        spec=sw.WalCursorSpec(), assumptions=["restart initialises both cursors from the persisted value (decided separately by C08.b/deserialize)", "WAL files of the flushed range are deleted before the restart (clean shutdown)"])
+    add("C08.b/serialize_cursor", "C08", "mirsym", Q, "MetaStore::serialize writes earliest_unflushed_wal_id as the persisted cursor (arithmetic slice to the set_next_wal_id call; capnp callees havoc'd)",
+        ["disk_store::meta_store::MetaStore::serialize (prefix)"], bounds="all u64 cursor pairs with earliest <= next; API replay: on-disk ingest/flush/ingest/restart scenario",
+        spec=sw.SerializeCursorSpec(), stubs=["capnp builder calls -> havoc", "set_next_wal_id -> end of slice, argument recorded"])
+    add("C08.b/deserialize_cursor", "C08", "mirsym", Q, "MetaStore::deserialize initialises next_wal_id and earliest_unflushed_wal_id from the persisted cursor (two-point dataflow slice)",
+        ["disk_store::meta_store::MetaStore::deserialize (get_next_wal_id block + MetaStore construction block)"], bounds="all u64 persisted values",
+        spec=sw.DeserializeCursorSpec(), stubs=["capnp reader calls -> havoc", "the cursor local is written exactly once (checked syntactically on the MIR)"])
+
 
 _mirsym()
 
